@@ -25,7 +25,8 @@ def plan(rng, tier):
                 flags = [-1] + ([rng.choice([0, 1])] if (L % 16384 == 0 or not q) else [])
                 for flag in flags:
                     # the model driver needs ~0.25 s per 16K octets: in quick the first boundary in full, the exact multiples by the OCTET STRING row
-                    model = flag < 0 and kind != "bits" and (L <= 16385 or (L % 16384 == 0 and L <= 49152 and kind == "oct") if q else True)
+                    # (c18uper; the exact multiples by c18vput on the BIT STRING row, see check_big)
+                    model = flag < 0 and kind != "bits" and (L <= 16385 if q else True)
                     cases.append((kind, n, L, flag, rng.choice([0, 0x5a, 0x7f, 1]), 1 + rng.below(1 << 20), model))
     # small neighbours: the one-octet / two-octet determinant switch of the open type itself
     for L in (1, 2, 127, 128, 129):
@@ -69,6 +70,15 @@ def check_big(run, rng, model_exe, m, tier, mrun):
             mlines.append("c18uper %s I%d; %d %s" % (MODEL_FRAME, ROW_ID[kind], ROW_ID[kind], model_value(kind, n, seed)))
             midx.append(i)
     mouts = dict(zip(midx, mrun(model_exe, mlines)))
+    # the loop of uper_open_type_put as modelled in Rt/OpenTypeFrag.v (open_put_c), on the contents Python computed: every row kind (the BIT STRING rows too);
+    # quick: the exact multiples of 16K by the BIT STRING row (smallest bit count); thorough: every aligned boundary case
+    plines, pidx, seenp = [], [], set()
+    for i, (kind, n, L, flag, tail, seed, wm) in enumerate(cases):
+        if flag < 0 and L in BOUNDARY_L and (tier != "quick" or (kind == "bits" and L % 16384 == 0 and (kind, L) not in seenp)):
+            seenp.add((kind, L))
+            plines.append("c18vput c " + inner_bytes(kind, n, seed).hex())
+            pidx.append(i)
+    pouts = dict(zip(pidx, mrun(model_exe, plines)))
     declines = []
     for i, (case, line, out) in enumerate(zip(cases, lines, outs)):
         kind, n, L, flag, tail, seed, wm = case
@@ -113,6 +123,20 @@ def check_big(run, rng, model_exe, m, tier, mrun):
             src = mb if mb is not None else up
         else:
             src = up
+        if i in pouts:
+            run.count("bigrow_open_put_model")
+            pb = int_octets(ROW_ID[kind])
+            pb = bytes([len(pb)]) + pb + bytes.fromhex(pouts[i]) + bytes([tail])
+            if pb != up:
+                run.violation("model:OpenTypeFrag.open_put", dict(replay, what="the model's open_put_c and Python's X.691 disagree on the open type", model_octets=len(pb)), no_input=True)
+            if (ulen, ucrc) != (len(pb), crc(pb)):
+                # which rule does the C follow?  (diagnosis only: the seeded rule `empty last fragment only after 64K` is a term of the model)
+                alt = mrun(model_exe, ["c18vput 64k " + inner_bytes(kind, n, seed).hex()])[0]
+                ab = pb[:1 + pb[0]] + bytes.fromhex(alt) + bytes([tail])
+                run.violation("correspondence:OpenTypeFrag.open_put",
+                              dict(replay, what="the C's open type is not open_put_c of the row's encoding (the loop of uper_open_type_put with the need_eom decision)",
+                                   model_octets=len(pb), model_crc32=crc(pb), c_follows_eom_only_after_64k=((ulen, ucrc) == (len(ab), crc(ab)))),
+                              no_input=(ulen, ucrc) == (len(up), crc(up)))
         ty = line.split()[1]
         declines.append((i, "full", "bigdec %s %s" % (ty, src.hex()), "model" if i in mouts else "spec"))
         # --- fault positions: the stream cut at every fragment boundary, and one octet short
